@@ -170,12 +170,13 @@ def generate(rng, index, tier):
                     if op_.get('k') == 'sys' and op_.get('name') in ('DBG_DYLD_TIMING_DLCLOSE', 'DBG_DYLD_TIMING_DLSYM'):
                         op_['s'][1] = h_
                 focus.append({'k': 'sys', 'name': 'DBG_DYLD_TIMING_DLCLOSE', 's': [0, h_, 0, 0], 'e': [0, 0, 0, 0], 'in': []})
-            if focus and focus[-1].get('k') == 'sys' and not focus[-1].get('noend') and rng.chance(0.15):
+            if focus and focus[-1].get('k') == 'sys' and not focus[-1].get('noend') and rng.chance(0.3):
                 # another operation of the same family overlaps the focus without nesting: it starts before and ends inside
                 fam_ = worlds.catalog()['fam'].get(name)
-                cands = [n_ for n_ in cat['names'] if worlds.catalog()['fam'].get(n_) == fam_ and n_ not in worlds.SPECIAL and n_ not in worlds.DYLD_STRING_ARG and n_ != name]
+                cands = [n_ for n_ in cat['names'] if worlds.catalog()['fam'].get(n_) == fam_ and n_ not in worlds.SPECIAL and n_ != name]
                 if cands:
-                    xn = rng.pick(cands)
+                    # (the overlapping operation cycles through the family with the visits of this focus: no pair depends on luck)
+                    xn = sorted(cands)[(index // len(names)) % len(cands)] if rng.chance(0.7) else rng.pick(cands)
                     sx, ex = domains.draw(rng, xn)
                     w_ = focus[-1]
                     w_['in'] = list(w_.get('in', []))
